@@ -242,8 +242,64 @@ def _abstract_signals(ctx):
         ctx.gc(6)
 
 
+def _g1_configured(ctx):
+    """Unitree G1 with NON-default configuration: command ranges that exclude zero (the zero command that
+    `sample_command` substitutes with probability 0.1 must still be a member of the declared space) — reset
+    observations over many keys; thorough: also a push magnitude range starting at 0, three steps, finite."""
+    if ctx.x64:
+        return
+    try:
+        from lerax.env.unitree.g1 import G1Locomotion
+    except Exception as e:  # noqa: BLE001
+        ctx.note(f"Unitree G1 environments not importable: {type(e).__name__}"[:120])
+        return
+    try:
+        env = G1Locomotion(lin_vel_x_range=(0.3, 1.0), lin_vel_y_range=(0.1, 0.4), ang_vel_yaw_range=(0.2, 1.0))
+    except TypeError as e:
+        ctx.note(f"G1Locomotion: command-range options not supported: {e}"[:160])
+        return
+    n = ctx.budget(48, 128)
+    keys = jr.split(jr.key(int(ctx.rng.integers(0, 2**31))), n)
+    obs = np.asarray(eqx.filter_jit(jax.vmap(lambda k: env.reset(key=k)[1]))(keys))
+    sp = env.observation_space
+    lo, hi = np.asarray(sp.low), np.asarray(sp.high)
+    inside = ((obs >= lo) & (obs <= hi) & np.isfinite(obs)).all(axis=1)
+    case = {"kind": "g1-configured-reset", "env": "G1Locomotion[command ranges exclude 0]", "keys": n,
+            "resets_outside_declared_space": int((~inside).sum())}
+    ctx.case(case, True)
+    ctx.count("g1-configured:reset-observations", n)
+    if not inside.all():
+        i = int(np.argmax(~inside))
+        j = int(np.argmax(~((obs[i] >= lo) & (obs[i] <= hi) & np.isfinite(obs[i]))))
+        ctx.phi_fail("observation_within_declared_bounds",
+                     {**case, "key_index": i, "entry": j, "value": float(obs[i, j]), "low": float(lo[j]), "high": float(hi[j])},
+                     key="c02:g1-configured:bounds")
+    ctx.gc(1)
+    if ctx.quick:
+        return
+    env2 = G1Locomotion(push_magnitude_range=(0.0, 2.0))
+
+    def roll(k):
+        s, _o, _ = env2.reset(key=k)
+
+        def body(s, kk):
+            ns, o, r, _te, _tr, _ = env2.step(s, jnp.zeros(env2.action_space.shape), key=kk)
+            return ns, (o, r)
+        return jax.lax.scan(body, s, jr.split(k, 3))[1]
+
+    o, r = eqx.filter_jit(roll)(jr.key(1))
+    case = {"kind": "g1-configured-steps", "env": "G1Locomotion[push_magnitude_range=(0, 2)]", "steps": 3,
+            "nan_observation_entries": int((~np.isfinite(np.asarray(o))).sum()), "rewards": np.asarray(r)}
+    ctx.case(case, True)
+    ctx.count("g1-configured:steps", 3)
+    if not (np.isfinite(np.asarray(o)).all() and np.isfinite(np.asarray(r)).all()):
+        ctx.phi_fail("observation_is_finite_not_nan", case, key="c02:g1-configured:finite")
+    ctx.gc(1)
+
+
 def run(ctx):
     _abstract_signals(ctx)
+    _g1_configured(ctx)
     classic = [("CartPole", CartPole), ("MountainCar", MountainCar), ("Pendulum", Pendulum),
                ("Acrobot", Acrobot), ("ContinuousMountainCar", ContinuousMountainCar)]
     H = ctx.budget(64, 512)
